@@ -524,6 +524,8 @@ func runC13(c *Ctx) {
 	checkGenericErrorDiscipline(c, "pkg/core")
 	checkLeafSizeFromDescriptor(c, "index.leaf-size-from-descriptor", "pkg/core", "pkg/fuse")
 	checkChunkLimitCountsSentKeys(c, "index.chunk-limit-counts-sent-keys")
+	checkTryGoHandled(c, "delete.trygo-handled", "pkg/core")
+	checkChunkDeleteBeforePut(c, "index.chunk-delete-before-put")
 }
 
 func runC14(c *Ctx) {
@@ -812,6 +814,8 @@ func runC14(c *Ctx) {
 	checkGenericErrorDiscipline(c, "pkg/core")
 	checkLeafSizeFromDescriptor(c, "index.leaf-size-from-descriptor", "pkg/core", "pkg/fuse")
 	checkChunkLimitCountsSentKeys(c, "index.chunk-limit-counts-sent-keys")
+	checkTryGoHandled(c, "delete.trygo-handled", "pkg/core")
+	checkChunkDeleteBeforePut(c, "index.chunk-delete-before-put")
 }
 
 func firstCallArgRecv(f *FuncInfo, callee string) ast.Expr {
